@@ -211,8 +211,54 @@ def check_case(ctx, case, rng):
     return None, diff
 
 
+def check_same_numerals(ctx, rng):
+    """Two bounded operators over the same operand whose bounds are written with the same numerals and different units (so their
+    durations differ by 1000): `A = (op[0,k u](p)) o (op'[0,k v](p))`.  The same durations written with different numerals
+    (everything in the finer unit) must give the same results on every discrete monitor."""
+    mon = rng.choice(["ond", "ond", "offd", "past"])
+    fine, coarse = rng.choice([("ms", "s"), ("us", "ms"), ("ns", "us")])
+    k = rng.randint(1, 3)
+    ops = ["once", "historically"] if mon == "ond" else (["eventually", "always"] if mon == "past" else
+                                                         ["once", "historically", "eventually", "always"])
+    op1 = rng.choice(ops)
+    op2 = op1 if rng.random() < 0.6 else rng.choice(ops)      # the same operator over the same operand: same printed name but for the bounds
+    p = "(a >= %s)" % rng.choice(["0.5", "1.0", "2.0"])
+    con = rng.choice(["and", "or"])
+    neg = rng.choice(["", "not "])
+
+    def spec(b1, b2):
+        return "out = ((%s[0,%s] %s) %s (%s(%s[0,%s] %s)))" % (op1, b1, p, con, neg, op2, b2, p)
+    text_a = spec("%d%s" % (k, coarse), "%d%s" % (k, fine))            # same numerals, different units
+    text_b = spec("%d%s" % (k * 1000, fine), "%d%s" % (k, fine))       # the same durations, everything in the finer unit
+    if rng.random() < 0.5:
+        text_a = text_a.replace("%d%s]" % (k, fine), "%d]" % k)        # ... or the finer one is the default unit, left out
+    n = rng.randint(3, 9)
+    data = {"a": [rng.choice([-1.0, 0.0, 1.0, 2.0, 3.0, 5.0]) for _ in range(n)]}
+    cfg = (fine, Fraction(1), fine)
+    ctx.evaluations += 1
+    ctx.count("same-numerals:" + mon)
+    a = run_monitor(mon, text_a, ["a"], data, n, *cfg)
+    b = run_monitor(mon, text_b, ["a"], data, n, *cfg)
+    rep = {"kind": "two-renderings", "monitor": mon, "spec_a": text_a, "spec_b": text_b, "cfg_a": [cfg[0], str(cfg[1]), cfg[2]],
+           "cfg_b": [cfg[0], str(cfg[1]), cfg[2]], "data": data, "n": n, "impl_a": a, "impl_b": b}
+    ctx.nontrivial.add((mon, text_a, str(data)))
+    if a[0] != "ok" or b[0] != "ok" or not same_vals(a[1], b[1]):
+        return Violation("%s monitor (unit %s, period 1 %s): two renderings with the same durations differ: %s gives %r, %s gives %r"
+                         % (mon, fine, fine, text_a, a[:2], text_b, b[:2]), rep, stream="units/same-numerals")
+    return None
+
+
 def explore(ctx, rng, count):
-    for _ in range(count):
+    for i in range(count):
+        if i % 3 == 2:
+            v = check_same_numerals(ctx, rng)
+            if v is None:
+                ctx.traces_validated += 1
+            else:
+                ctx.violations.append(v)
+                if len(ctx.violations) >= 3:
+                    return
+            continue
         c = gen_case(rng)
         if disc.known_region(ctx, c, REGIONS):
             ctx.skipped_known += 1
@@ -259,7 +305,7 @@ def cfg_of(c):
 
 
 def run(ctx):
-    explore(ctx, ctx.subrng("units"), ctx.budget(60, 1200))
+    explore(ctx, ctx.subrng("units"), ctx.budget(180, 1500))
     if not ctx.violations:
         try:
             from .. import dense
